@@ -640,6 +640,15 @@ func callSSA(i *interpreter, caller *frame, callpos token.Pos, fn *ssa.Function,
 						}
 					}
 				}
+				if path == "os" {
+					// the portable error values are aliases of io/fs's (os.IsNotExist and friends compare with them)
+					for _, n := range []string{"ErrInvalid", "ErrPermission", "ErrExist", "ErrNotExist", "ErrClosed"} {
+						if g, ok := fn.Pkg.Members[n].(*ssa.Global); ok {
+							v := i.fsErr(n)
+							i.globals[g] = &v
+						}
+					}
+				}
 			}
 			return nil
 		}
